@@ -109,7 +109,13 @@ impl WhereClauseBuilder {
     pub fn build(self, f: impl Fn(&Type) -> TokenStream) -> TokenStream {
         let mut ws = Vec::new();
         for ty in &self.types {
-            ws.push(f(ty));
+            // `A + B: Trait` and `&'a A + B` are not well-formed, `(A + B): Trait` and `&'a (A + B)` are.
+            let ty = match ty {
+                Type::TraitObject(t) if t.bounds.len() > 1 => syn::parse_quote!((#ty)),
+                Type::ImplTrait(t) if t.bounds.len() > 1 => syn::parse_quote!((#ty)),
+                _ => ty.clone(),
+            };
+            ws.push(f(&ty));
         }
         for p in self.preds {
             ws.push(quote!(#p));
